@@ -14,7 +14,7 @@ import (
 func init() {
 	register(&Prop{
 		ID:          "C03",
-		Explanation: "Decides the structure that binds a callback to the login that started it: in OAuthCallback every path that saves a session passed decodeState ok, then LoadCSRFCookie under the name derived from that state's nonce, then CheckOAuthState(that nonce)==true on that very cookie object; LoadCSRFCookie yields a CSRF only from a cookie of the requested name that decodeCSRFCookie accepted, which needs encryption.Validate ok and decrypts/unmarshals Validate's value; the hash/check/set methods each read the nonce field they are named after; the start flow sends encodeState(csrf.HashOAuthState()) and HashOIDCNonce() of the same object whose SetCookie succeeded before the redirect, and NewCSRF draws state and nonce from two separate encryption.Nonce calls; both cookie-name derivations cut the hashed state at the same constant and encodeState/decodeState agree on the field order. Added during the build: csrf.ClearCookie deletes exactly its own cookie, so completing one login leaves other outstanding logins intact (R6). The Validate -> checkSignature -> checkHmac -> hmac.Equal chain the CSRF cookie rests on is checked under R2; the session-cookie sweeps that run when a login completes spare other logins' CSRF cookies (R7). Round 4: every Redeem implementation sends the verifier of this login's CSRF cookie (R8, shared with C05.R9); LoginURLParams returns a map made for this request, never the provider's shared default map (R9).",
+		Explanation: "Decides the structure that binds a callback to the login that started it: in OAuthCallback every path that saves a session passed decodeState ok, then LoadCSRFCookie under the name derived from that state's nonce, then CheckOAuthState(that nonce)==true on that very cookie object; LoadCSRFCookie yields a CSRF only from a cookie of the requested name that decodeCSRFCookie accepted, which needs encryption.Validate ok and decrypts/unmarshals Validate's value; the hash/check/set methods each read the nonce field they are named after; the start flow sends encodeState(csrf.HashOAuthState()) and HashOIDCNonce() of the same object whose SetCookie succeeded before the redirect, and NewCSRF draws state and nonce from two separate encryption.Nonce calls; both cookie-name derivations cut the hashed state at the same constant and encodeState/decodeState agree on the field order. Added during the build: csrf.ClearCookie deletes exactly its own cookie, so completing one login leaves other outstanding logins intact (R6). The Validate -> checkSignature -> checkHmac -> hmac.Equal chain the CSRF cookie rests on is checked under R2; the session-cookie sweeps that run when a login completes spare other logins' CSRF cookies (R7). Round 4: every Redeem implementation sends the verifier of this login's CSRF cookie (R8, shared with C05.R9); LoginURLParams returns a map made for this request, never the provider's shared default map (R9). Round 6: ExtractStateSubstring returns its cut whenever the state is long enough to cut (under R5).",
 		NotDecided:  "the 'succeeds' direction of the biconditional and the ordering of concurrent logins (behaviour over histories); entropy of crypto/rand (trusted).",
 		Run:         runC03,
 	})
@@ -66,7 +66,7 @@ func runC03(c *Ctx) {
 	r.Rule("R8-own-verifier-redeemed", "every Redeem implementation sends the verifier of this login's CSRF cookie as code_verifier, so a callback with its own state and cookie can complete under PKCE (shared with C05.R9)", 4)
 	r.Rule("R9-login-params-fresh", "LoginURLParams returns a map made for this request, never the provider's shared default map", 1)
 	r.Rule("R6-clears-own-cookie-only", "csrf.ClearCookie deletes exactly its own cookie", 2)
-	r.Rule("R5-name-agreement", "cookieName and ExtractStateSubstring cut the hashed state at the same constant; encodeState/decodeState agree on field order", 4)
+	r.Rule("R5-name-agreement", "cookieName and ExtractStateSubstring cut the hashed state at the same constant, and the latter returns its cut whenever it made one; encodeState/decodeState agree on field order", 5)
 
 	a := c.cbAnchors("R1-callback-gating")
 	if a == nil {
@@ -303,6 +303,41 @@ func runC03(c *Ctx) {
 				c.ok(rule, key, c1[0].in, sprintf("both cut [%d:%d] of the hashed state", c1[0].lo, c1[0].hi))
 			} else {
 				c.bad(rule, key, c1[0].in, "the cookie-name substring is not taken from HashNonce(OAuthState) on the setter side / from the state argument on the callback side", nil, 0)
+			}
+		}
+		// the callback side returns the cut whenever it made one: "" (which selects the fixed cookie name) only for a state too
+		// short to cut. A further test on the substring — an alphabet check, say — that answers "" for some states the
+		// setter produces makes those logins look for a cookie that was never set
+		if len(c2) == 1 {
+			key := "extract-total|" + fnKey(extract)
+			n, bad := 0, false
+			c.WalkShallow(rule, extract, func(p *walk.Path) {
+				rv, ok := p.ReturnDV(0)
+				if !ok || bad {
+					return
+				}
+				n++
+				cutDone := false
+				for _, st := range p.Steps {
+					if st.In == ssa.Instruction(c2[0].in) {
+						cutDone = true
+					}
+				}
+				r := p.Resolve(rv)
+				switch {
+				case r.V == ssa.Value(c2[0].in):
+				case !cutDone:
+					if s, isC := ConstString(r.V); !isC || s != "" {
+						bad = true
+						c.bad(rule, key, p.Exit, "ExtractStateSubstring returns something other than the cut or the empty string", p, p.End())
+					}
+				default:
+					bad = true
+					c.bad(rule, key, p.Exit, "ExtractStateSubstring cut the state and then returns something else: for states the start side produces, the callback derives a different (or the fixed) cookie name and the login's own CSRF cookie is not found", p, p.End())
+				}
+			})
+			if !bad && n > 0 {
+				c.R.OK(rule, key, c.P.Pos(extract.Pos()), "returns the cut whenever the state is long enough, \"\" otherwise")
 			}
 		}
 		// both sides finish with csrfCookieName(opts, substring), and the per-request switch is the same option
